@@ -165,6 +165,9 @@ func (r *funcRun) execBlock(st *State, b *ssa.BasicBlock, pred *ssa.BasicBlock) 
 		}
 		// first arrival
 		bind(st, phiVals)
+		for _, sn := range ls.Snaps {
+			st.snaps[sn] = st.snap()
+		}
 		for _, l := range ls.Lets {
 			c := &evalCtx{r: r, st: st, old: r.old, vars: r.baseVars(st), src: r.c.Src}
 			tv := c.evalStr(l.Expr)
@@ -440,6 +443,14 @@ func (r *funcRun) callWrites(cc *ssa.CallCommon) []string {
 func (r *funcRun) step(st *State, in ssa.Instruction, b *ssa.BasicBlock) ([]workItem, bool) {
 	switch x := in.(type) {
 	case *ssa.DebugRef:
+		if x.IsAddr {
+			if obj := x.Object(); obj != nil {
+				if v, ok := st.regs[x.X.Name()]; ok {
+					st.names["&"+obj.Name()] = v
+					st.ntypes["&"+obj.Name()] = x.X.Type()
+				}
+			}
+		}
 		if !x.IsAddr {
 			if id, ok := x.Expr.(interface{ String() string }); ok {
 				_ = id
@@ -459,6 +470,10 @@ func (r *funcRun) step(st *State, in ssa.Instruction, b *ssa.BasicBlock) ([]work
 		elem := x.Type().(*types.Pointer).Elem()
 		ref := st.newRef("new_" + x.Name())
 		st.regs[x.Name()] = ref
+		if x.Comment != "" && !strings.ContainsAny(x.Comment, " ()") {
+			st.names["&"+x.Comment] = ref
+			st.ntypes["&"+x.Comment] = x.Type()
+		}
 		if classify(elem) == kArray {
 			at := elem.Underlying().(*types.Array)
 			// zeroed backing array
